@@ -243,3 +243,31 @@ func Par(f1, f2, env func()) {
 		}
 	}
 }
+
+// MustReturn runs a call that must not block for ever:
+//   - under the engine it is a plain call (a receive/select that can never proceed is reported as a blocking violation);
+//   - natively the call runs in a goroutine; if it has not returned after the timeout the failure "blocked forever" is
+//     recorded and the harness carries on without its results.
+func MustReturn(f func()) {
+	if Symbolic() {
+		f()
+		return
+	}
+	d := make(chan struct{})
+	go func() { defer close(d); f() }()
+	select {
+	case <-d:
+	case <-time.After(1500 * time.Millisecond):
+		mu.Lock()
+		Failures = append(Failures, "blocked forever")
+		mu.Unlock()
+	}
+}
+
+// DeferGo(true): under the engine, goroutines started by `go` statements from now on are queued instead of being run to
+// completion at the spawn point; RunSpawned runs the queued goroutines (in spawn order, each until it returns, with the
+// idle hook serving as its environment). Natively both are no-ops (goroutines simply run).
+func DeferGo(on bool) {}
+
+// RunSpawned: see DeferGo.
+func RunSpawned() {}
